@@ -1,7 +1,7 @@
 (* C18 — property theorems only.  Each is closed by [exact] of a lemma proved elsewhere and is
    followed by Print Assumptions. *)
 From Coq Require Import ZArith QArith Qabs List Bool.
-From PySDC Require Import Base.Dyadic Base.Poly Model.FD Proofs.TransferOpsProofs Proofs.FDProofs.
+From PySDC Require Import Base.Dyadic Base.Poly Model.FD Model.FDnd Proofs.TransferOpsProofs Proofs.FDProofs Proofs.FDndProofs.
 Import ListNotations.
 
 (* (1) Stencil exactness for EVERY polynomial below the number of stencil points, every x, h<>0:
@@ -80,3 +80,26 @@ Example C18_nonvacuous :
   check_stencil [-1; 0; 1]%Z [Dy 1 0; Dy (-2) 0; Dy 1 0] 2 d0 = true.
 Proof. vm_compute. reflexivity. Qed.
 Print Assumptions C18_nonvacuous.
+
+(* (4) dimensions 2 and 3: the assembled Kronecker sums (entry functions fd2_entry / fd3_entry = the three sp.kron terms of
+   get_finite_difference_matrix, compared entry-wise with the real matrices every run) apply the 1-D operator A along each axis
+   of a row-major grid function, for EVERY size n, every 1-D matrix A (any boundary treatment) and every grid function u, over
+   any commutative ring. *)
+Section C18_nd.
+  Context {K : Type} (kO kI : K) (kadd kmul ksub : K -> K -> K) (kopp : K -> K).
+  Hypothesis Rth : ring_theory kO kI kadd kmul ksub kopp (@eq K).
+  Theorem C18_2d_matrix_applies_operator_along_each_axis : forall n (A : nat -> nat -> K) (u : nat -> nat -> K) i j,
+    (i < n)%nat -> (j < n)%nat ->
+    sumn kO kadd (fun c => kmul (fd2_entry kO kI kadd kmul n A (i * n + j) c) (u (c / n) (c mod n))%nat) (n * n)
+    = kadd (sumn kO kadd (fun k => kmul (A i k) (u k j)) n) (sumn kO kadd (fun k => kmul (A j k) (u i k)) n).
+  Proof. exact (fd2_apply kO kI kadd kmul ksub kopp Rth). Qed.
+  Theorem C18_3d_matrix_applies_operator_along_each_axis : forall n (A : nat -> nat -> K) (u : nat -> nat -> nat -> K) i j l,
+    (i < n)%nat -> (j < n)%nat -> (l < n)%nat ->
+    sumn kO kadd (fun c => kmul (fd3_entry kO kI kadd kmul n A ((i * n + j) * n + l) c)
+                                (u (c / (n * n)) ((c / n) mod n) (c mod n))%nat) (n * n * n)
+    = kadd (kadd (sumn kO kadd (fun k => kmul (A i k) (u k j l)) n) (sumn kO kadd (fun k => kmul (A l k) (u i j k)) n))
+           (sumn kO kadd (fun k => kmul (A j k) (u i k l)) n).
+  Proof. exact (fd3_apply kO kI kadd kmul ksub kopp Rth). Qed.
+End C18_nd.
+Print Assumptions C18_2d_matrix_applies_operator_along_each_axis.
+Print Assumptions C18_3d_matrix_applies_operator_along_each_axis.
